@@ -138,6 +138,8 @@ def _child(mod, prop, scenario, tape_values, wfd):
         try:
             h.ev("end-of-run", reason=reason)
             violations, shape, nontrivial = mod.check(h, reason)
+            if hasattr(mod, "cleanup"):
+                mod.cleanup(h)
             tape = S.tape.recorded()
             probes = dict(S.probes)
             probes["end:" + reason] = 1
